@@ -442,7 +442,7 @@ impl Run {
             let clause = format!("{}.concurrent_cold_start", self.id);
             let msg = v["message"].as_str().unwrap_or("").to_string();
             let sig = v["sig"].as_str().unwrap_or("").to_string();
-            let id_case = json!({"clause": v["clause"], "case": v["case"], "profile": v["profile"], "first_call": v["first_call"]});
+            let id_case = json!({"clause": v["clause"], "case": v["case"], "profile": v["profile"], "first_call": v["first_call"], "cold_code": v["cold_code"]});
             let how = if msg.starts_with("single-threaded") { "in a fresh process: " } else { "in a fresh process, with 48 threads making their first calls at the same time: " };
             return self.violation(&clause, &sig, id_case, &format!("{}{}", how, msg));
         }
